@@ -13,7 +13,7 @@ use shared::terms::{Term, TriplePattern};
 use shared::triple::Triple;
 use std::collections::{BTreeMap, BTreeSet};
 
-const RULE: &str = "random fact sets (<=10 facts over 2-4 constants, 1-3 predicates) x 1-3 denial constraints (1-3 premises sharing variables, one atom in six with a variable predicate, one case in four with facts about its own predicates; shapes: none/pair/chain/triangle/independent conflicts + unrelated facts) x every goal shape; each case repeated (6x quick, 20x thorough) in fresh Reasoners (per-instance hash seeds change the subset search order). Non-trivial = the fact set is inconsistent, has >= 2 maximal repairs and the oracle answer set is compared against a non-empty candidate set; distinct by hash of (facts, constraints, goal).";
+const RULE: &str = "random fact sets (<=10 facts over 2-4 constants, 1-3 predicates) x 1-3 denial constraints (1-3 premises sharing variables, one atom in six with a variable predicate, one case in four with facts about its own predicates; shapes: none/pair/chain/triangle/independent conflicts + unrelated facts) x 0-2 rules with 1-2 conclusions x every goal shape; each case repeated (6x quick, 20x thorough) in fresh Reasoners (per-instance hash seeds change the subset search order). Non-trivial = the fact set is inconsistent, has >= 2 maximal repairs and the oracle answer set is compared against a non-empty candidate set; distinct by hash of (facts, constraints, goal).";
 
 fn term_name(i: u32) -> String {
     format!("t{}", i)
@@ -61,7 +61,7 @@ fn gen_case(r: &mut Rng) -> Case {
     }
     let ents = pool;
     let vars = ["X", "Y", "Z"];
-    let n_con = r.range(1, 3);
+    let n_con = if r.chance(1, 20) { 0 } else { r.range(1, 3) };
     let mut constraints = vec![];
     for _ in 0..n_con {
         let np = r.range(1, 3);
@@ -90,7 +90,12 @@ fn gen_case(r: &mut Rng) -> Case {
                 }
             };
             let head = (head_t(r), PT::C(r.pick(&preds).clone()), head_t(r));
-            rules.push((prem, vec![head]));
+            let mut heads = vec![head];
+            if r.chance(1, 4) {
+                // a second conclusion: it is checked against a store that already holds the first
+                heads.push((head_t(r), PT::C(r.pick(&preds).clone()), head_t(r)));
+            }
+            rules.push((prem, heads));
         }
     }
     let goal = (gen_pt(r, &["A", "B"], &ents, 60), if r.chance(1, 5) { PT::V("P".into()) } else { PT::C(r.pick(&preds).clone()) }, gen_pt(r, &["A", "B", "A"], &ents, 60));
